@@ -727,6 +727,28 @@ func ruleVersContainsShape(p *Prog, r *Report) {
 	loops := findLoops(fn)
 	var excl, union *loop
 	var exclWhy string
+	// the documented answer for the lone "*": 'return true' under the true edge of a predicate over the
+	// raw constraint list that compares with "*" ('vers:<scheme>/*' contains every valid version)
+	starRet := func(b *ssa.BasicBlock) bool {
+		if !returnsBool(b, true) {
+			return false
+		}
+		for _, blk := range fn.Blocks {
+			for _, ins := range blk.Instrs {
+				c, ok := ins.(*ssa.Call)
+				if !ok || len(c.Call.Args) != 1 || !isStringSlice(c.Call.Args[0].Type()) {
+					continue
+				}
+				if _, isParam := c.Call.Args[0].(*ssa.Parameter); !isParam {
+					continue
+				}
+				if g := c.Call.StaticCallee(); g != nil && p.IsRepoFn(g) && comparesWithStar(g) && trueEdgeDominates(c, b) {
+					return true
+				}
+			}
+		}
+		return false
+	}
 	for _, l := range loops {
 		hasNeq, rejects, accepts := false, false, false
 		for b := range l.body {
@@ -771,6 +793,9 @@ func ruleVersContainsShape(p *Prog, r *Report) {
 	} else {
 		var early []string
 		for _, b := range fn.Blocks {
+			if starRet(b) {
+				continue
+			}
 			if returnsBool(b, true) && !excl.header.Dominates(b) {
 				early = append(early, p.Pos(b.Instrs[len(b.Instrs)-1].Pos()))
 			}
@@ -811,7 +836,7 @@ func ruleVersContainsShape(p *Prog, r *Report) {
 			}
 		}
 		for _, b := range fn.Blocks {
-			if !returnsBool(b, true) || union.body[b] || accept[b] {
+			if !returnsBool(b, true) || union.body[b] || accept[b] || starRet(b) {
 				continue
 			}
 			guarded := false
